@@ -6,7 +6,8 @@ parser (DESIGN.md §5.5): it cuts a text into the terminals that the rules reach
 match atomically (`integer`, `float`, `simple_variable`/keywords, the operator rules and their
 symbolic aliases, parentheses, comma) and skips `WHITESPACE`/`COMMENT` between them, exactly where
 pest's implicit skipping applies.  Texts outside the modelled sub-language (compound variables
-`x_i`, brackets, braces, strings, …) are answered with `unsupported`, never guessed.
+with a `$`/`_` prefix or a float index, escaped names, string escapes, …) are answered with `unsupported`, never
+guessed.
 Import-free.
 -/
 namespace Rooc.Syntax
@@ -20,6 +21,11 @@ inductive Tok where
   | ampamp | barbar | bang | arrow | darrow      -- `&&` `||` `!` `->` `<->`
   -- program level (C11): NEWLINE, `:`, the `comparison` rule, `s.t.`
   | nl | colon | le | ge | eq | lt | gt | st
+  -- blocks, array accesses, ranges, compound variables, strings
+  | lbrace | rbrace | lbrack | rbrack
+  | dotdot | dotdoteq       -- `range_type = @{ "..=" | ".." }`
+  | us                      -- the `"_"` of `compound_variable`, written directly behind a word / segment / `}`
+  | str (s : String)        -- `string` without escapes: the text between the quotes
   deriving Repr, DecidableEq, Inhabited
 
 inductive LexRes where
@@ -45,6 +51,49 @@ def isSimpleRun (r : List Char) : Bool :=
   match (spanWhile (· == '_') r).2 with
   | c :: cs => isLetter c && cs.all (fun d => isLetter d || isDigit d)
   | [] => false
+
+def lowerAscii (c : Char) : Char := if decide ('A' ≤ c) && decide (c ≤ 'Z') then Char.ofNat (c.toNat + 32) else c
+def lowerWord (w : String) : String := String.ofList (w.toList.map lowerAscii)
+
+/-- `LETTER (LETTER | NUMBER)*` -/
+def isPlainRun (r : List Char) : Bool :=
+  match r with
+  | c :: cs => isLetter c && cs.all (fun d => isLetter d || isDigit d)
+  | [] => false
+
+/-- a run of word characters cut at its underscores: `x_i_12` ↦ `x`, `i`, `12` -/
+def splitRun : List Char → List (List Char)
+  | [] => [[]]
+  | c :: cs =>
+    if c == '_' then [] :: splitRun cs
+    else match splitRun cs with
+      | s :: ss => (c :: s) :: ss
+      | [] => [[c]]
+
+/-- one `compound_variable_body` written without braces: `integer` or `simple_variable` (without `$`/`_`) -/
+def segTok (s : List Char) : Option Tok :=
+  if s.isEmpty then none
+  else if s.all isDigit then some (.int (String.ofList s))
+  else if isPlainRun s then some (.word (String.ofList s)) else none
+
+/-- `("_" ~ body)*` inside one run of word characters.  `next` is the text behind the run: a run that ends
+in `_` goes on with `{`; an integer segment followed by `.digit` would be a `float` body (an error of the AST
+builder that is not modelled). -/
+def compoundTail : List (List Char) → List Char → Option (List Tok)
+  | [], _ => some []
+  | [[]], next =>
+    match next with
+    | '{' :: _ => some [.us]
+    | _ => none
+  | [s], next =>
+    match segTok s, next with
+    | some (.int _), '.' :: d :: _ => if isDigit d then none else (segTok s).map (fun t => [.us, t])
+    | some t, _ => some [.us, t]
+    | none, _ => none
+  | s :: ss, next =>
+    match segTok s, compoundTail ss next with
+    | some t, some ts => some (.us :: t :: ts)
+    | _, _ => none
 
 /-- after `/*`: the text behind the closing `*/` (none: unterminated, then `/*` is no comment). -/
 def afterBlockComment : List Char → Option (List Char)
@@ -120,6 +169,7 @@ def lexAux : Nat → List Char → Bool → List Tok → LexRes
           if isDigit d then
             let (fs, r'') := spanWhile isDigit (d :: r')
             lexAux fuel r'' false (.float (String.ofList (ds ++ '.' :: fs)) :: acc)
+          else if d == '.' then lexAux fuel r false (.int (String.ofList ds) :: acc)    -- `1..n`
           else .unsupported
         | '.' :: [] => .unsupported
         | _ => lexAux fuel r false (.int (String.ofList ds) :: acc)
@@ -132,7 +182,52 @@ def lexAux : Nat → List Char → Bool → List Tok → LexRes
       else if isLetter c || c == '_' then
         let (run, r) := spanWhile isWordChar (c :: rest)
         if c == '_' && prevWord then .unsupported
-        else if isSimpleRun run then lexAux fuel r true (.word (String.ofList run) :: acc) else .unsupported
+        else if isSimpleRun run then lexAux fuel r true (.word (String.ofList run) :: acc)
+        else if c == '_' then
+          -- `no_par = @{ "_" }` (a tuple component / a constant that is not named); `_{…}` would be a compound
+          -- variable without a base name
+          match run, r with
+          | ['_'], '{' :: _ => .unsupported
+          | ['_'], _ => lexAux fuel r true (.word "_" :: acc)
+          | _, _ => .unsupported
+        else
+          -- `compound_variable`: `base_seg_seg…`
+          match splitRun run with
+          | base :: segs =>
+            match compoundTail segs r with
+            | some ts => lexAux fuel r true (ts.reverse ++ .word (String.ofList base) :: acc)
+            | none => .unsupported
+          | [] => .unsupported
+      else if c == '{' then
+        match acc with
+        | .word w :: _ =>
+          -- `graph = { ^"Graph" ~ "{" … }`: graph literals are outside the model
+          if lowerWord w == "graph" then .unsupported else lexAux fuel rest false (.lbrace :: acc)
+        | _ => lexAux fuel rest false (.lbrace :: acc)
+      else if c == '}' then
+        match rest with
+        | '_' :: _ =>
+          -- `x_{i}_j`: the compound variable goes on behind the brace
+          let (run, r) := spanWhile isWordChar rest
+          match splitRun run with
+          | [] :: segs =>
+            match compoundTail segs r with
+            | some ts => lexAux fuel r true (ts.reverse ++ .rbrace :: acc)
+            | none => .unsupported
+          | _ => .unsupported
+        | _ => lexAux fuel rest true (.rbrace :: acc)
+      else if c == '[' then lexAux fuel rest false (.lbrack :: acc)
+      else if c == ']' then lexAux fuel rest false (.rbrack :: acc)
+      else if c == '.' then
+        match rest with
+        | '.' :: '=' :: r => lexAux fuel r false (.dotdoteq :: acc)
+        | '.' :: r => lexAux fuel r false (.dotdot :: acc)
+        | _ => .unsupported
+      else if c == '"' then
+        let (body, r) := spanWhile (fun d => d != '"' && d != '\\') rest
+        match r with
+        | '"' :: r' => lexAux fuel r' false (.str (String.ofList body) :: acc)
+        | _ => .unsupported
       else .unsupported
 
 def lex (s : List Char) : LexRes := lexAux (s.length + 1) s false []
